@@ -113,6 +113,11 @@ func LoadIndex(idx index.Index, r io.Reader, opts ...Option) error {
 
 	records := make([]index.Record, 0)
 	for {
+		// A CARv2 data payload without any section ends right after its header.
+		if dataSize != 0 && sectionOffset >= dataSize {
+			break
+		}
+
 		// Read the section's length.
 		sectionLen, err := varint.ReadUvarint(reader)
 		if err != nil {
